@@ -922,10 +922,12 @@ static bool gen_uni(Bld &b, bool viol, int force_flavour = -1) {
     return b.commit();
 }
 
-static bool gen_file(Bld &b, bool viol) {
+static bool gen_file(Bld &b, bool viol, bool faults) {
     Rng &r = b.r;
     int fn = pick(r, {FN_fopen_s, FN_freopen_s, FN_tmpfile_s, FN_tmpfile_s});
     b.op.fn = fn;
+    // one of the file-system / descriptor calls the library makes on the way fails
+    if (faults && r.chance(1, 3)) { b.op.f.sys_k = 1 + r.below(r.chance(1, 2) ? 2 : 6); b.op.f.sys_errno = pick(r, {12 /*ENOMEM*/, 24 /*EMFILE*/, 13 /*EACCES*/, 5 /*EIO*/, 28 /*ENOSPC*/}); }
     if (fn == FN_tmpfile_s) { b.op.a[0] = (viol && r.chance(1, 3)) ? -1 : 0; return b.commit(); }
     b.op.a[0] = r.chance(3, 4) ? 0 : r.below(4);
     b.op.a[1] = r.chance(3, 4) ? r.below(2) : r.below(5);
@@ -1030,7 +1032,7 @@ bool gen_op(Rng &r, int fam, TaskPlan &tp, uint32_t *top, const GenCfg &cfg, boo
     case FAM_TIME: ok = gen_time(b, viol); break;
     case FAM_SORT: ok = gen_sort(b, viol); break;
     case FAM_UNI: ok = gen_uni(b, viol); break;
-    default: ok = gen_file(b, viol); break;
+    default: ok = gen_file(b, viol, cfg.faults); break;
     }
     if (ok && cfg.faults && !tp.ops.empty()) {
         // allocation failures attached to ops of the families that allocate
@@ -1148,7 +1150,7 @@ std::string plan_to_text(const Plan &p) {
             const Fault &f = op.f;
             if (f.any())
                 o << "fault " << f.alloc_k << " " << f.alloc_mode << " " << f.alloc_k2 << " " << f.wr_fail_at << " " << f.wr_errno << " "
-                  << f.wr_chunk << " " << f.rd_chunk << " " << f.rd_err_at << " " << f.rd_errno << " " << f.bufmode << " " << (unsigned long long)f.alloc_mask << "\n";
+                  << f.wr_chunk << " " << f.rd_chunk << " " << f.rd_err_at << " " << f.rd_errno << " " << f.bufmode << " " << (unsigned long long)f.alloc_mask << " " << f.sys_k << " " << f.sys_errno << "\n";
         }
     }
     return o.str();
@@ -1211,6 +1213,8 @@ bool parse_replay(const std::string &text, std::map<std::string, std::string> &m
             ls >> f.alloc_k >> f.alloc_mode >> f.alloc_k2 >> f.wr_fail_at >> f.wr_errno >> f.wr_chunk >> f.rd_chunk >> f.rd_err_at >> f.rd_errno >> f.bufmode;
             unsigned long long mk = 0;
             if (ls >> mk) f.alloc_mask = mk;
+            int sk = 0, se = 0;
+            if (ls >> sk >> se) { f.sys_k = sk; f.sys_errno = se; }
         } else if (kw == "start") ls >> s.start;
         else if (kw == "sw") {
             Switch w;
